@@ -20,6 +20,8 @@ struct Shape {
     deco: Vec<u8>,
     /// struct-level decoration: 0 none, 1 doc comment, 2 #[allow(dead_code)] (before the remote attribute)
     sdeco: u8,
+    /// remote type given as a module-qualified path (`ext::RemoteW`) instead of a bare identifier
+    modpath: bool,
 }
 
 impl Shape {
@@ -41,7 +43,7 @@ impl Shape {
             _ => {}
         }
         if self.remote {
-            s += "#[animate(remote = \"RemoteW\")] ";
+            s += if self.modpath { "#[animate(remote = \"ext::RemoteW\")] " } else { "#[animate(remote = \"RemoteW\")] " };
         }
         s += &format!("{}struct {} {{ ", VIS[self.vis], self.name());
         for (i, (t, a, v)) in self.fields.iter().enumerate() {
@@ -223,7 +225,7 @@ fn check_shape(sh: &Shape, rank: u64, sink: &mut VSink) {
                         if vf_set != want_names {
                             sink.add("values_from-copies-wrong-fields", rank, || mk(format!("values_from copies {:?}, animated fields {:?}", vf_set, want_names)));
                         }
-                        if !vf.contains(&format!("values:&{}", if sh.remote { "RemoteW" } else { "W" })) {
+                        if !vf.contains(&format!("values:&{}", if sh.modpath { "ext::RemoteW" } else if sh.remote { "RemoteW" } else { "W" })) {
                             sink.add("values_from-target", rank, || mk("values_from does not take the target type".into()));
                         }
                     }
@@ -258,7 +260,7 @@ fn decode(n: usize, mut idx: u64, ntypes: usize) -> Shape {
     // decorations rotate with the shape number so that every enumerated size carries all of them
     let seed = (idx0 / 6) as usize;
     let deco: Vec<u8> = (0..n).map(|i| if (seed + i) % 3 == 0 { 0 } else { ((seed / 3 + i * 2) % 5) as u8 }).collect();
-    Shape { fields, vis, remote, deco, sdeco: (seed % 3) as u8 }
+    Shape { fields, vis, remote, deco, sdeco: (seed % 3) as u8, modpath: remote && seed % 2 == 1 }
 }
 
 fn count(n: usize, ntypes: usize) -> u64 {
@@ -317,11 +319,18 @@ fn gen_module(id: usize, sh: &Shape) -> String {
     let ty = |i: usize| TYPES[sh.fields[i].0];
     let mut s = format!("mod s{id} {{\n    use super::*;\n");
     if sh.remote {
+        if sh.modpath {
+            s += "    pub mod ext {\n";
+        }
         s += "    #[derive(Clone, Debug, Default, PartialEq)]\n    pub struct RemoteW { ";
         for i in 0..n {
             s += &format!("pub f{i}: {}, ", ty(i));
         }
-        s += "}\n    #[derive(Animate)]\n    ";
+        s += "}\n";
+        if sh.modpath {
+            s += "    }\n    use ext::RemoteW;\n";
+        }
+        s += "    #[derive(Animate)]\n    ";
     } else {
         s += "    #[derive(Animate, Clone, Debug, Default, PartialEq)]\n    ";
     }
@@ -493,7 +502,7 @@ pub fn run(run: Run) -> ! {
                 fields.push((if c % 2 == 0 { 0 } else { 4 }, (c / 2) % 2 == 1, i % 3));
                 deco.push((c / 4) as u8);
             }
-            deco_shapes.push(Shape { fields, vis: (k % 3) as usize, remote, deco, sdeco });
+            deco_shapes.push(Shape { fields, vis: (k % 3) as usize, remote, deco, sdeco, modpath: remote && (k / 6) % 2 == 1 });
         }
     }
     for (i, sh) in deco_shapes.iter().enumerate() {
@@ -543,7 +552,7 @@ pub fn run(run: Run) -> ! {
     cov.insert("programs_compiled".into(), json!(compiled));
     cov.insert("evaluations".into(), json!(shapes_a + checks));
     cov.insert("distinct_nontrivial".into(), json!(shapes_a));
-    cov.insert("rule".into(), json!(format!("Layer A (in-process expansion of the real derive source, parsed as a syn::File): ALL struct shapes with {} fields over types {{f32,f64,u8,i16,i32,u32}} x every #[animate] subset x struct visibility {{private,pub,pub(crate)}} (field visibilities rotated) x {{local, #[animate(remote = ...)] proxy}}, with doc comments / #[allow] / #[cfg] attributes before or after the #[animate] marker and on the struct (rotated over all shapes, and exhaustively for 1..2 fields); oracle: animated field set = attributed fields, or all if none is attributed; the keyframe builder has exactly one public setter per animated field with the field's type, keyframe data and t_<field> sub-timelines likewise, keyframe_from / values_from / update / start_with touch exactly the animated fields and are wired name-to-name, Target is the (remote) type, visibility copied, accessors forwarded to the time scale. Layer B: {} shapes compiled with the real derive: setter presence observed at run time (inherent-vs-trait method resolution), keyframe_from copies exactly the animated fields, un-animated fields keep sentinels, every animated field interpolates per a linear reference on a 41-point time grid (delay, two cycles, after the end), metadata accessors return the configured values ({} run-time checks)", if thorough { "1..5 (6 types) and 6 (3 types)" } else { "1..4" }, compiled, checks)));
+    cov.insert("rule".into(), json!(format!("Layer A (in-process expansion of the real derive source, parsed as a syn::File): ALL struct shapes with {} fields over types {{f32,f64,u8,i16,i32,u32}} x every #[animate] subset x struct visibility {{private,pub,pub(crate)}} (field visibilities rotated) x {{local, #[animate(remote = ...)] proxy (bare identifier or module-qualified path)}}, with doc comments / #[allow] / #[cfg] attributes before or after the #[animate] marker and on the struct (rotated over all shapes, and exhaustively for 1..2 fields); oracle: animated field set = attributed fields, or all if none is attributed; the keyframe builder has exactly one public setter per animated field with the field's type, keyframe data and t_<field> sub-timelines likewise, keyframe_from / values_from / update / start_with touch exactly the animated fields and are wired name-to-name, Target is the (remote) type, visibility copied, accessors forwarded to the time scale. Layer B: {} shapes compiled with the real derive: setter presence observed at run time (inherent-vs-trait method resolution), keyframe_from copies exactly the animated fields, un-animated fields keep sentinels, every animated field interpolates per a linear reference on a 41-point time grid (delay, two cycles, after the end), metadata accessors return the configured values ({} run-time checks)", if thorough { "1..5 (6 types) and 6 (3 types)" } else { "1..4" }, compiled, checks)));
     cov.insert("exhaustive".into(), json!(true));
     cov.insert("compiled_runtime_checks".into(), json!(checks));
     cov.insert("samples".into(), json!(acc.samples));
